@@ -1,0 +1,12 @@
+// This Source Code Form is subject to the terms of the Mozilla Public
+// License, v. 2.0. If a copy of the MPL was not distributed with this
+// file, You can obtain one at http://mozilla.org/MPL/2.0/.
+//
+// Copyright (c) DUSK NETWORK. All rights reserved.
+
+//! Verification hooks (feature `verif`, off by default).
+//!
+//! Additive seams for the external bounded-exhaustive verification harness.
+//! Nothing in this module is compiled without the `verif` feature.
+
+pub use crate::composer::verif::{GateRow, Snapshot, set_witness_script};
